@@ -83,6 +83,21 @@ class GraphV:
         ns = [n] if n is not None else list(self.node)
         return [(u, v, d) for v in ns for u, d in self.pred.get(v, {}).items()]
 
+    def copy(self):
+        """networkx semantics: a new graph object with new adjacency and attribute dicts
+        holding the same node / attribute objects"""
+        g = GraphV()
+        for n, d in self.node.items():
+            g.node[n] = dict(d)
+            g.succ[n] = {}
+            g.pred[n] = {}
+        for u, nbrs in self.succ.items():
+            for v, d in nbrs.items():
+                dd = dict(d)
+                g.succ[u][v] = dd
+                g.pred[v][u] = dd
+        return g
+
     def snapshot(self):
         return (
             {n: dict(d) for n, d in self.node.items()},
@@ -118,10 +133,9 @@ class GWorld(World):
         self.EXPL = Obj(ENGINE_CLS[impl], "ENGINE", kind="engine")
         self.CUR = Obj(ENGINE_CLS[impl], "CURRENT-ENGINE", kind="engine")
         self.current = self.CUR
-        self.graph = GraphV()
         self.net = Obj(NET, "net", kind="gnet")
         self.net.attrs["name"] = "net"
-        self.net.attrs["_graph"] = self.graph
+        self.net.attrs["_graph"] = GraphV()
         self.consts = {}
         vm = prog.module(VIEWS)
         import ast as _ast
@@ -132,6 +146,15 @@ class GWorld(World):
         self.in_order = None  # optional permutation for the in-edge view iteration
         self.captured = {}
         self.build_engines()
+
+    @property
+    def graph(self) -> GraphV:
+        """the graph object the network currently holds"""
+        return self.net.attrs["_graph"]
+
+    @graph.setter
+    def graph(self, g: GraphV) -> None:
+        self.net.attrs["_graph"] = g
 
     # ----------------------------------------------------------- builders
     def node(self, name):
@@ -256,6 +279,15 @@ class GWorld(World):
                     return None
 
                 return _Bound(call)
+            if attr == "copy":
+                def cp(*a, **k):
+                    g2 = o.copy()
+                    for d in g2.node.values():
+                        self.owned.add(id(d))
+                    for _, _, d in g2.out_edges():
+                        self.owned.add(id(d))
+                    return g2
+                return _Bound(cp)
             if attr == "has_node":
                 return _Bound(lambda n: n in o.node)
             if attr == "has_edge":
